@@ -78,6 +78,19 @@ pub fn check(deep: bool, runs: &mut usize, fails: &mut Vec<Failure>) {
         }
         jobs.push((vec!["verify".into(), "--equivalence".into(), "external".into(), "--no-proof-search".into()], None, vec![("b.lp".into(), "p(X) :- q(X).".into()), ("s.spec".into(), format!("spec: {t}")), ("g.ug".into(), "input: q/1. output: p/1.".into())], format!("anthem verify --equivalence external b.lp=`p(X) :- q(X).` s.spec=`spec: {t}` g.ug=`input: q/1. output: p/1.`")));
     }
+    // accepted but unusual external-equivalence tasks
+    for (a, b, g, spec) in [(":- q(X), X > 1.", ":- q(X), 1 < X.", "input: q/1.", None), ("p(X) :- q(X).", "p(X) :- q(X).", "input: q/1. output: p/1. output: r/2.", None), ("", "", "input: q/1. output: p/1.", None), ("p.", "p.", "", None),
+                             ("p(X) :- q(X).", "", "input: q/1. output: p/1.", Some("")), ("p(X) :- q(X).", "", "input: q/1. output: p/1.", Some("spec: #true.")), ("p(X) :- q(X), not q(X, X).", "p(X) :- q(X), not q(X, X).", "input: q/1. output: p/1.", None),
+                             (":- not p.", ":- not p.", "output: p/0.", None), ("{p(X)} :- q(X).", "{p(X)} :- q(X).", "input: q/1. output: p/1. input: n -> integer.", None), ("p(n).", "p(n).", "output: p/1. input: n -> symbol.", None)] {
+        let mut files = vec![("a.lp".to_string(), a.to_string())];
+        match spec { Some(s) => files.push(("s.spec".into(), s.to_string())), None => files.push(("b.lp".into(), b.to_string())) }
+        files.push(("g.ug".into(), g.to_string()));
+        for extra in [vec![], vec!["--bypass-tightness".to_string()], vec!["--no-simplify".to_string(), "--no-eq-break".to_string()], vec!["--direction".to_string(), "backward".to_string()]] {
+            let mut args = vec!["verify".to_string(), "--equivalence".into(), "external".into(), "--no-proof-search".into()];
+            args.extend(extra);
+            jobs.push((args, None, files.clone(), format!("anthem verify --equivalence external {files:?}")));
+        }
+    }
     for g in with_mut(GUIDES, &mut rng) {
         jobs.push((vec!["verify".into(), "--equivalence".into(), "external".into(), "--no-proof-search".into()], None, vec![("a.lp".into(), "p(X) :- q(X), X = n.".into()), ("b.lp".into(), "p(X) :- q(X), n = X.".into()), ("g.ug".into(), g.clone())], format!("anthem verify --equivalence external a.lp=`p(X) :- q(X), X = n.` b.lp=`p(X) :- q(X), n = X.` g.ug=`{g}`")));
     }
